@@ -75,8 +75,13 @@ impl Mesh {
             let local = point - prj.point;
             let triangle = self.shape.triangle(id);
             if let Some(normal) = triangle.normal() {
+                // A point lying on the surface (to within rounding) has an offset without a
+                // meaningful direction and is always accepted
+                let aabb = self.aabb();
+                let scale = aabb.extents().norm() + aabb.center().coords.norm();
+                let on_surface = local.norm() <= 1.0e-12 * scale;
                 let angle = normal.angle(&local).abs();
-                if angle < max_angle || angle > PI - max_angle {
+                if on_surface || angle < max_angle || angle > PI - max_angle {
                     Some((prj, id, loc))
                 } else {
                     None
